@@ -169,6 +169,7 @@ def main(argv=None):
     os.makedirs(repdir, exist_ok=True)
     cfg = runner.TIERS[tier]
     n_done = 0
+    nonreplayable = 0
     for oracle, vs in sorted(seen_oracles.items()):
         for v in vs[: 2 if n_done < cfg["max_min"] else 0]:
             n_done += 1
@@ -180,7 +181,7 @@ def main(argv=None):
                 continue
             if m["finding"] is None:
                 print(f"HARNESS-NONREPLAYABLE property={prop} oracle={oracle} run_index={v['desc'].get('run_index')} (did not reproduce in a fresh process)")
-                rc = 2
+                nonreplayable += 1
                 continue
             md = m["desc"]
             # replay once more in another fresh interpreter, under a different hash seed
@@ -192,7 +193,7 @@ def main(argv=None):
                 continue
             if not any(f["oracle"] == oracle for f in rr["findings"]):
                 print(f"HARNESS-NONREPLAYABLE property={prop} oracle={oracle} run_index={v['desc'].get('run_index')} (minimised run did not replay under another hash seed)")
-                rc = 2
+                nonreplayable += 1
                 continue
             k = classify(prop, md, m["finding"], known)
             tag = k["id"] if k else "violation"
@@ -227,6 +228,8 @@ def main(argv=None):
             json.dump({"format": 1, "property": prop, "oracle": fnd["oracle"], "finding": fnd, "descriptor": md,
                        "pythonhashseed": 0, "library_rev": rev, "library_dirty": dirty, "classified": kid}, f, indent=1, default=str)
         print(f"KNOWN-FINDING: property={prop} {kid}: {entry['text']} ({n} runs; replay={path})")
+    if nonreplayable and n_viol == 0 and rc == 0:
+        rc = 2   # something fired that no fresh process reproduces: a harness problem, never a pass
     unclassified_rest = sum(len(vs) for vs in seen_oracles.values()) - n_done
     write_evidence(prop, tier, seed, total, n_viol, known_hits, extra={"library_rev": rev, "library_dirty": dirty,
                    "violating_runs_seen": len(total["violations"]) + total["more_violations"],
